@@ -97,30 +97,64 @@ class Simulator:
             if (leaf.isPropagatable()):
                 self.propagatables.append(leaf)
                 
-        # Now sort the propagatables list
-        anyChange = True 
-        
-        loopcount = 0
-        
-        while (anyChange):
-            loopcount += 1
-            anyChange = False
-            
-            if (loopcount > 1000):
-                raise Exception('Excessive loop count in topological count')
-                
-            for i in range(len(self.propagatables)):
-                leaf = self.propagatables[i]
-                pos = self.findFirstDependentPosition(leaf)
-                
-                if (pos >= 0 and pos < i):
-                    # exchange position, put dependent last
-                    first = self.propagatables[pos]
-                    self.propagatables[pos] = leaf
-                    self.propagatables[i] = first
-                    anyChange = True
-        
-    
+        # Now sort the propagatables list (Kahn's algorithm, keeping the
+        # instantiation order among independent circuits). Any circuit that
+        # can not be scheduled is part of a combinational loop.
+        import heapq
+
+        num = len(self.propagatables)
+        index = {}
+        for i in range(num):
+            index[self.propagatables[i]] = i
+
+        pending = [0] * num     # number of drivers not yet scheduled
+        dependents = []
+
+        for i in range(num):
+            deps = [index[sink] for sink in self.getDependents(self.propagatables[i])]
+            dependents.append(deps)
+            for j in deps:
+                pending[j] += 1
+
+        ready = [i for i in range(num) if pending[i] == 0]
+        heapq.heapify(ready)
+        ordered = []
+
+        while (len(ready) > 0):
+            i = heapq.heappop(ready)
+            ordered.append(self.propagatables[i])
+
+            for j in dependents[i]:
+                pending[j] -= 1
+                if (pending[j] == 0):
+                    heapq.heappush(ready, j)
+
+        if (len(ordered) != num):
+            looped = [self.propagatables[i].getFullPath() for i in range(num) if pending[i] > 0]
+            raise Exception('Combinational loop detected in topological sort, involving {}'.format(looped[0:10]))
+
+        self.propagatables = ordered
+
+    def getDependents(self, obj:Logic) -> list:
+        """
+        Returns the propagatable circuits directly connected to the outputs
+        of the provided circuit
+        """
+        sinks = []
+
+        for port in obj.outPorts:
+            if (port.wire is None):
+                # skip unconnected ports
+                continue
+
+            for sinkPort in port.wire.getSinks():
+                sink = sinkPort.parent
+
+                if (sink.isPropagatable()):
+                    sinks.append(sink)
+
+        return sinks
+
         
     def getOrCreateClockDriverSimulator(self, drv:ClockDriver) -> ClockDriverSimulator:
         try:
